@@ -24,7 +24,7 @@ Definition col (s : asg) (f l a b : nat) : list bool := map (fun t => bit s t f 
 
 (** * Predicates on the grid, one per kind *)
 Definition Pcons (s : asg) : Prop :=
-  forall t f, t < T fb -> f < nf fb -> ntrue (map (bit s t f) (seq 0 (nlevels fb f))) = 1.
+  forall t f, t < T fb -> isact fb f = true -> ntrue (map (bit s t f) (seq 0 (nlevels fb f))) = 1.
 
 Definition Patmost (k f l : nat) (wb : option geometry) (s : asg) : Prop :=
   Forall (fun r => forall w, In w (windows (S k) (col s f l (fst r) (snd r))) -> ntrue w < S k) (windows_of fb wb).
@@ -44,11 +44,11 @@ Definition Ppin (i : Z) (f l : nat) (wb : option geometry) (s : asg) : Prop :=
 Lemma gvar_pos t f l : 0 < gvar fb t f l.
 Proof. unfold gvar. lia. Qed.
 
-Lemma gvar_le t f l : t < T fb -> f < nf fb -> l < nlevels fb f -> (zn (gvar fb t f l) <= GZ)%Z.
+Lemma gvar_le t f l : t < T fb -> isact fb f = true -> l < nlevels fb f -> (zn (gvar fb t f l) <= GZ)%Z.
 Proof. intros A B C. pose proof (gvar_range fb HF1 t f l A B C). unfold GZ, GN, zn. lia. Qed.
 
 Lemma range_vars_ok f l (r : nat * nat) fresh :
-  f < nf fb -> l < nlevels fb f -> snd r <= T fb -> (GZ < fresh)%Z ->
+  isact fb f = true -> l < nlevels fb f -> snd r <= T fb -> (GZ < fresh)%Z ->
   Forall (fun v => 0 < v /\ (zn v <= fresh - 1)%Z) (map (fun t => gvar fb t f l) (seq (fst r) (snd r - fst r))).
 Proof.
   intros A B C D. apply Forall_forall. intros v Hv. apply in_map_iff in Hv. destruct Hv as (t & <- & Ht).
@@ -79,7 +79,7 @@ Lemma step_atmost k f l wb :
   exists ext, DefinesA (fresh - 1) (ct_fresh ct - 1) (ct_clauses ct) (ct_requests ct) ext (Patmost k f l wb).
 Proof.
   intros Hc fresh ct Hfr E. cbn [constraint_f1] in Hc. rewrite !andb_true_iff in Hc.
-  destruct Hc as [[Hf Hl] Hg]. apply Nat.ltb_lt in Hf, Hl. destruct (geom_ok_some wb Hg) as [rs Ers].
+  destruct Hc as [[Hf Hl] Hg]. apply Nat.ltb_lt in Hl. destruct (geom_ok_some wb Hg) as [rs Ers].
   cbn [apply_constraint] in E. unfold apply_atmost, sublistss in E.
   rewrite (f1_var_lists fb HF1 f l wb rs Hf Hl Ers) in E. cbn [cbind] in E. inversion E. subst ct. clear E.
   cbn [ct_fresh ct_clauses ct_requests]. exists (fun s => s).
@@ -116,7 +116,7 @@ Lemma step_exactlyk k f l wb :
   exists ext, DefinesA (fresh - 1) (ct_fresh ct - 1) (ct_clauses ct) (ct_requests ct) ext (Pexactlyk k f l wb).
 Proof.
   intros Hc fresh ct Hfr E. cbn [constraint_f1] in Hc. rewrite !andb_true_iff in Hc.
-  destruct Hc as [[[Hf Hl] Hg] Hne]. apply Nat.ltb_lt in Hf, Hl. destruct (geom_ok_some wb Hg) as [rs Ers].
+  destruct Hc as [[[Hf Hl] Hg] Hne]. apply Nat.ltb_lt in Hl. destruct (geom_ok_some wb Hg) as [rs Ers].
   rewrite (ranges_of wb rs Ers) in Hne. rewrite forallb_forall in Hne.
   cbn [apply_constraint] in E. unfold apply_exactlyk in E.
   rewrite (f1_var_lists fb HF1 f l wb rs Hf Hl Ers) in E. cbn [cbind] in E. inversion E. subst ct. clear E.
@@ -160,7 +160,7 @@ Lemma step_exclude f l :
   exists ext, DefinesA (fresh - 1) (ct_fresh ct - 1) (ct_clauses ct) (ct_requests ct) ext (Pexclude f l).
 Proof.
   intros Hc fresh ct Hfr E. cbn [constraint_f1] in Hc. rewrite !andb_true_iff in Hc.
-  destruct Hc as [Hf Hl]. apply Nat.ltb_lt in Hf, Hl.
+  destruct Hc as [Hf Hl]. apply Nat.ltb_lt in Hl.
   cbn [apply_constraint] in E. unfold apply_exclude in E.
   rewrite (f1_var_lists_none fb HF1 f l Hf Hl) in E. cbn [cbind] in E.
   replace (0 <? T fb) with true in E by (symmetry; now apply Nat.ltb_lt).
@@ -203,7 +203,7 @@ Lemma step_pin i f l wb :
   exists ext, DefinesA (fresh - 1) (ct_fresh ct - 1) (ct_clauses ct) (ct_requests ct) ext (Ppin i f l wb).
 Proof.
   intros Hc fresh ct Hfr E. cbn [constraint_f1] in Hc. rewrite !andb_true_iff in Hc.
-  destruct Hc as [[[Hf Hl] Hg] Hs]. apply Nat.ltb_lt in Hf, Hl. apply Nat.eqb_eq in Hs.
+  destruct Hc as [[[Hf Hl] Hg] Hs]. apply Nat.ltb_lt in Hl. apply Nat.eqb_eq in Hs.
   destruct (geom_ok_some wb Hg) as [rs Ers].
   pose proof (pins_bound i f wb rs Hs Ers) as Hpb.
   assert (HGZ : (0 <= GZ)%Z) by (unfold GZ, zn; lia).
@@ -254,7 +254,7 @@ Proof.
   intros fresh ct Hfr E. cbn [apply_constraint] in E. rewrite (f1_consistency fb HF1 fresh) in E.
   inversion E. subst ct. clear E. cbn [ct_fresh ct_clauses ct_requests]. exists (fun s => s).
   assert (HGZ : (0 <= GZ)%Z) by (unfold GZ, zn; lia).
-  assert (Hrow : forall t f, t < T fb -> f < nf fb ->
+  assert (Hrow : forall t f, t < T fb -> isact fb f = true ->
             Forall (fun v => 0 < v /\ (zn v <= fresh - 1)%Z) (map (fun l => gvar fb t f l) (seq 0 (nlevels fb f)))).
   { intros t f Ht Hf. apply Forall_map. apply Forall_forall. intros l Hl. apply in_seq in Hl.
     split; [apply gvar_pos|]. pose proof (gvar_le t f l Ht Hf ltac:(lia)). lia. }
@@ -263,19 +263,19 @@ Proof.
   { intros t f. unfold zs. now rewrite map_map. }
   eapply definesA_conseq.
   - apply definesA_requests; [lia|]. apply Forall_flat_map. apply Forall_forall. intros t Ht. apply in_seq in Ht.
-    apply Forall_map. apply Forall_forall. intros f Hf. apply in_seq in Hf. rewrite Hzs.
-    change 1%Z with (zn 1). apply req_ok_zs; [|apply Hrow; lia].
-    pose proof (f1_nlevels_pos fb HF1 f ltac:(lia)). destruct (nlevels fb f); [lia|discriminate].
+    apply Forall_map. apply Forall_forall. intros f Hf. apply (proj2 (isact_In fb f)) in Hf. rewrite Hzs.
+    change 1%Z with (zn 1). apply req_ok_zs; [|apply Hrow; [lia|exact Hf]].
+    pose proof (f1_nlevels_pos fb HF1 f (f1_act_lt fb HF1 f Hf)). destruct (nlevels fb f); [lia|discriminate].
   - intros s. unfold Pcons. rewrite Forall_flat_map. split.
     + intros H t f Ht Hf. pose proof (proj1 (Forall_forall _ _) H t ltac:(apply in_seq; lia)) as H1.
-      rewrite Forall_map in H1. pose proof (proj1 (Forall_forall _ _) H1 f ltac:(apply in_seq; lia)) as H2.
+      rewrite Forall_map in H1. pose proof (proj1 (Forall_forall _ _) H1 f (proj1 (isact_In fb f) Hf)) as H2.
       cbv beta in H2. rewrite Hzs in H2. change 1%Z with (zn 1) in H2. apply req_rel_EQ in H2.
       * rewrite map_map in H2. exact H2.
       * eapply Forall_impl; [|apply (Hrow t f Ht Hf)]. intros a [Ha _]. exact Ha.
     + intros H. apply Forall_forall. intros t Ht. apply in_seq in Ht. apply Forall_map.
-      apply Forall_forall. intros f Hf. apply in_seq in Hf. rewrite Hzs. change 1%Z with (zn 1). apply req_rel_EQ.
-      * eapply Forall_impl; [|apply (Hrow t f); lia]. intros a [Ha _]. exact Ha.
-      * rewrite map_map. apply H; lia.
+      apply Forall_forall. intros f Hf. apply (proj2 (isact_In fb f)) in Hf. rewrite Hzs. change 1%Z with (zn 1). apply req_rel_EQ.
+      * eapply Forall_impl; [|apply (Hrow t f); [lia|exact Hf]]. intros a [Ha _]. exact Ha.
+      * rewrite map_map. apply H; [lia|exact Hf].
 Qed.
 
 End F1Kinds.
